@@ -182,8 +182,9 @@ Definition set_upd_tick (c : client) (t : N) : client :=
 
 Definition apply_update_message (c : client) (u : update_msg) : res client :=
   let c0 := set_upd_tick c (u_tick u) in
-  let c1 := fold_left (fun c m => apply_entity_mapping c (fst m) (snd m)) (u_maps u) c0 in
-  let c2 := fold_left apply_despawn (u_despawns u) c1 in
+  (* despawn records first: they are about what the client knew before; then the mappings of the message *)
+  let c1 := fold_left apply_despawn (u_despawns u) c0 in
+  let c2 := fold_left (fun c m => apply_entity_mapping c (fst m) (snd m)) (u_maps u) c1 in
   let* r3 := run_array (fun c r => apply_removals c (u_tick u) (fst r) (snd r)) (u_removals u) c2 in
   match r3 with
   | Abort c3 => Ok c3
